@@ -176,7 +176,7 @@ def run_shard(ctx):
     from mindsdb_sql.planner import plan_query
     from mindsdb_sql.exceptions import PlanningException
     acc = ctx.acc
-    n = 2200 if ctx.tier == 'quick' else 30000
+    n = 2200 if ctx.tier == 'quick' else 120000
     for i in range(n):
         if not ctx.mine(i):
             continue
